@@ -656,7 +656,7 @@ func verifH_C02_same_fragment() {
 	verifReach("end")
 }
 
-//verif:harness id=C02 tier=quick,thorough witness=end bounds="path item references: paths./a is a reference to a whole external file, to a fragment of an external file's paths (with the ~1 escape), to a path item in a sub-directory whose operation refers to a schema file next to it, or to another path item of the same document x both entry points; after loading the path item has the target's operations and their nested references are resolved against the target's file"
+//verif:harness id=C02 tier=quick,thorough witness=end bounds="path item references: paths./a is a reference to a whole external file, to a fragment of an external file's paths (with the ~1 escape), to a path item in a sub-directory whose operation refers to a schema file next to it, or to another path item of the same document, or through a chain of two or three path item references (within the document, or into a file whose path item refers on) x both entry points; after loading the path item has the target's operations and their nested references are resolved against the target's file"
 func verifH_C02_path_items() {
 	files := map[string]string{
 		"/r/pi.json":    `{"get":{"operationId":"fromFile","responses":{"200":{"description":"d"}}}}`,
@@ -665,10 +665,12 @@ func verifH_C02_path_items() {
 		"/r/d/s.json":   `{"type":"integer","minimum":7}`,
 		"/r/s.json":     `{"type":"boolean"}`,
 	}
-	shape := verifChoose("shape", 4)
-	ref := []string{"pi.json", "x3.json#/paths/~1p", "d/pi2.json", "#/paths/~1other"}[shape]
-	wantID := []string{"fromFile", "fromFragment", "fromDir", "other"}[shape]
-	rootText := `{"openapi":"3.0.0","info":{"title":"t","version":"1"},"paths":{"/a":{"$ref":"` + ref + `"},"/other":{"get":{"operationId":"other","responses":{"200":{"description":"d"}}}}}}`
+	shape := verifChoose("shape", 7)
+	// 4-6: chains of path item references (through a path that sorts later, through two, through another file's path item that refers on)
+	files["/r/x4.json"] = `{"paths":{"/q":{"$ref":"x3.json#/paths/~1p"}}}`
+	ref := []string{"pi.json", "x3.json#/paths/~1p", "d/pi2.json", "#/paths/~1other", "#/paths/~1b", "#/paths/~1c", "x4.json#/paths/~1q"}[shape]
+	wantID := []string{"fromFile", "fromFragment", "fromDir", "other", "other", "other", "fromFragment"}[shape]
+	rootText := `{"openapi":"3.0.0","info":{"title":"t","version":"1"},"paths":{"/a":{"$ref":"` + ref + `"},"/b":{"$ref":"#/paths/~1other"},"/c":{"$ref":"#/paths/~1b"},"/other":{"get":{"operationId":"other","responses":{"200":{"description":"d"}}}}}}`
 	rootLoc := &url.URL{Path: "/r/doc.json"}
 	loader := NewLoader()
 	loader.IsExternalRefsAllowed = true
